@@ -163,16 +163,41 @@ def equal(a, b, seed=0, points=8, nonzero=()):
     for ex, conds in _arms(diff):
         if nonzero and _outside(conds, nonzero):
             continue
-        subs, infeasible = _subs_from(conds)
-        if infeasible:
-            continue
-        if subs:
-            ex = ex.subs(subs)
-        ok, how, wit = is_zero(ex, seed, points)
-        if not ok:
-            return False, how + (f" on arm {conds}" if conds else ""), wit
-        hows.append(how)
+        for case in _cases(conds):
+            if nonzero and _outside(case, nonzero):
+                continue
+            subs, infeasible = _subs_from(case)
+            if infeasible:
+                continue
+            ex2 = ex.subs(subs) if subs else ex
+            ok, how, wit = is_zero(ex2, seed, points)
+            if not ok:
+                return False, how + (f" on arm {case}" if case else ""), wit
+            hows.append(how)
     return True, "; ".join(sorted(set(hows))), None
+
+
+def _cases(conds):
+    """Disjunctive cases of an arm's path condition, each a list of literals."""
+    if not conds:
+        return [[]]
+    c = sp.And(*conds)
+    try:
+        d = sp.to_dnf(c, simplify=False)
+    except Exception:
+        return [list(conds)]
+    if d is sp.false:
+        return []
+    ds = d.args if isinstance(d, sp.Or) else [d]
+    if len(ds) > 64:
+        return [list(conds)]
+    out = []
+    for x in ds:
+        lits = list(x.args) if isinstance(x, sp.And) else [x]
+        # Not(Ne(a,b)) is Eq(a,b)
+        lits = [sp.Eq(*l.args[0].args) if isinstance(l, sp.Not) and isinstance(l.args[0], sp.Ne) else l for l in lits]
+        out.append(lits)
+    return out
 
 
 def homogeneity(e, syms, seed=0):
